@@ -493,14 +493,24 @@ func c17r1(c *Ctx) {
 	reach := p.CG().Reach(entries, nil)
 	c.Stat("generation_reachable_functions", len(reach))
 	armed := map[string]bool{istioMod + "/" + pkgEndpoints: true, istioMod + "/" + pkgRoute: true, istioMod + "/" + pkgXds: true}
-	if os.Getenv("VERIF_C17_ARM_CORE") != "" {
-		armed[istioMod+"/"+pkgCore] = true
-		armed[istioMod+"/pilot/pkg/networking/grpcgen"] = true
-	}
+	_ = os.Getenv
+	armed[istioMod+"/"+pkgCore] = true
+	armed[istioMod+"/pilot/pkg/networking/grpcgen"] = true
 	// frozen exceptions: function + ranged expression -> reason the order does not reach generated bytes
 	except := map[string]string{
 		"(*pilot/pkg/xds.DiscoveryServer).Clients|field adsClients": "list of connections for the push fan-out and debug pages; not part of any generated resource",
 		"pilot/pkg/xds.referencedSecrets|local map": "the slice has two consumers, both order-insensitive: an any-match scan in EcdsGenerator.Generate and a map insert keyed by the unique resource name in GeneratePullSecrets; 300 generations byte-identical (findings/C17-map-order S5)",
+		// pilot/pkg/networking/core and grpcgen: triaged against the real generators (findings/C17-core); 11 sites repaired
+		"(*pilot/pkg/networking/core.ConfigGeneratorImpl).buildGatewayListeners|local map|field filterChainOpts": "TCP and QUIC listeners have different names (bind_port / udp_bind_port): the loop only decides the insertion order of two different map keys; the listener list is ordered by the ServerPorts slice and (since the repair) sorted by name",
+		"(*pilot/pkg/networking/core.ConfigGeneratorImpl).deltaFromDestinationRules|UnsortedList|returned":      "the returned names are inserted into a set in BuildDeltaClusters and the response uses sets.SortedList of it (22 removed names, one order over 300 generations)",
+		"(*pilot/pkg/networking/core.ConfigGeneratorImpl).deltaFromServiceDiff|UnsortedList|returned":           "same: set insert + SortedList in BuildDeltaClusters",
+		"(*pilot/pkg/networking/core.ConfigGeneratorImpl).deltaFromServiceDiff|param serviceClusters|local deletedClusters": "same: set insert + SortedList in BuildDeltaClusters",
+		"(*pilot/pkg/networking/core.ConfigGeneratorImpl).deltaFromServices|UnsortedList|returned":              "same: set insert + SortedList in BuildDeltaClusters",
+		"(*pilot/pkg/networking/core.ConfigGeneratorImpl).deltaFromServices|local map|local deletedClusters":    "same: set insert + SortedList in BuildDeltaClusters",
+		"(*pilot/pkg/networking/grpcgen.GrpcConfigGenerator).Generate|UnsortedList|passed to BuildListeners":     "the names only fill a map (newListenerNameFilter); outbound listeners follow SidecarScope.Services() x sets.SortedList(RequestedNames)",
+		"(*pilot/pkg/networking/grpcgen.GrpcConfigGenerator).Generate|UnsortedList|passed to BuildClusters":      "the names only fill a map (newClusterFilter); the cluster order is decided in BuildClusters (repaired)",
+		"pilot/pkg/networking/core.mergeAllVirtualHosts|param vHostPortMap|local virtualHosts":                   "the only caller chain ends in util.SortVirtualHosts on unique names (httproute.go); the gRPC caller never passes port 0",
+		"pilot/pkg/networking/core.selectVirtualServices|param servicesByName|local wcSvcHosts":                  "wcSvcHosts is only read by slices.ContainsFunc (any-match); the output follows the input slice order",
 		"(*pilot/pkg/xds.StatusGen).handleInternalRequest|UnsortedList|element picked by position": "the request is rejected unless the set has exactly one element (len check two lines above)",
 		"pilot/pkg/xds.parseAndValidateDebugRequest|UnsortedList|element picked by position":      "validateProxyAuthentication rejects the request unless the set has exactly one element",
 	}
@@ -553,8 +563,11 @@ func c17r1(c *Ctx) {
 				}
 				continue
 			}
-			if _, ok := except[key]; ok && !m.sorted {
-				c.Check("map-range append (frozen exception): "+key, m.pos, true, "")
+			exKey := key + "|" + strings.Join(m.unsorted, ",")
+			_, ex1 := except[key]
+			_, ex2 := except[exKey]
+			if (ex1 || ex2) && !m.sorted {
+				c.Check("map-range append (frozen exception): "+exKey, m.pos, true, "")
 				continue
 			}
 			c.Check("map-range append is sorted afterwards: "+key, m.pos, m.sorted,
